@@ -71,6 +71,9 @@ def payloads(seed, tier):
     ps.append(("run-70000", "run", bytes([rng.randrange(256)]) * 70000))         # > 32 KiB deflate window, > 64 KiB snappy block
     ps.append(("prng-100000", "prng", rng.randbytes(100000)))                    # > bzip2 level-1 block (100 k)
     ps.append(("text-20000", "text", text(rng, 20000)))
+    # the most compressible input there is: deflate reaches its maximum expansion (about 1030:1) only on runs of several MiB,
+    # so a cap on the output derived from the compressed size must still let this through
+    ps.append(("maxrun-4m", "maxrun", bytes([rng.randrange(256)]) * (4 << 20)))
     if tier == "thorough":
         for n in (65535, 65536, 65537):                                          # stored-block / snappy-block edges
             ps.append((f"edge-{n}", "edge", rng.randbytes(n)))
